@@ -119,3 +119,36 @@ Theorem prog_fallback_is_production_weights g target ctx alts ws0 :
   prog_weights g target ctx alts = Ok ws0 -> forallb (fun q => Qeq_bool q 0) ws0 = true ->
   prog_final_weights g target ctx alts = Ok (map (prod_weight g) alts).
 Proof. intros H Hz. unfold prog_final_weights. rewrite H. cbn [bind]. rewrite Hz. reflexivity. Qed.
+
+(* with the clamped heuristic (repair of F44) the weights are non-negative whenever the target and the production weights are *)
+Lemma prog_weights_nonneg g target ctx : 0 <= target -> 0 <= c_depth ctx -> (forall x, (0 <= prod_weight g x)%Q) ->
+  forall alts ws, prog_weights g target ctx alts = Ok ws -> forall q, In q ws -> (0 <= q)%Q.
+Proof.
+  intros Ht Hd Hp. induction alts as [|a t IH]; intros ws H q Hq; cbn [prog_weights] in H; [inversion H; subst; destruct Hq|].
+  destruct (if in_rec g a then _ else _) as [w|] eqn:Ew; cbn [bind] in H; [|discriminate].
+  destruct (prog_weights g target ctx t) as [r|] eqn:Er; cbn [bind] in H; [|discriminate]. inversion H; subst ws. clear H.
+  destruct Hq as [<-|Hq]; [|eapply IH; eauto].
+  assert (Hw : 0 <= w).
+  { destruct (in_rec g a); [inversion Ew; subst; apply Z.div_pos; lia|].
+    destruct (gdist_ty g a); cbn [bind] in Ew; [|discriminate]. inversion Ew; subst. lia. }
+  apply Qmult_le_0_compat; [|apply Hp]. unfold Qle; cbn. lia.
+Qed.
+
+Lemma prog_final_nonneg g target ctx alts ws : 0 <= target -> 0 <= c_depth ctx -> (forall x, (0 <= prod_weight g x)%Q) ->
+  prog_final_weights g target ctx alts = Ok ws -> forall q, In q ws -> (0 <= q)%Q.
+Proof.
+  intros Ht Hd Hp. unfold prog_final_weights. destruct (prog_weights g target ctx alts) as [ws0|] eqn:E; cbn [bind]; [|discriminate].
+  intro H. inversion H; subst ws. clear H. destruct (forallb _ ws0).
+  - intros q Hq. apply in_map_iff in Hq. destruct Hq as [x [<- _]]. apply Hp.
+  - exact (prog_weights_nonneg g target ctx Ht Hd Hp alts ws0 E).
+Qed.
+
+(* the decider-level statement without a hypothesis on the intermediate weights *)
+Theorem prog_zero_weight_never' g key alts ctx st x st' :
+  choose g DProg key alts ctx st = (Ok x, st') -> 0 <= c_depth ctx -> (forall y, (0 <= prod_weight g y)%Q) ->
+  exists target ws, prog_final_weights g target ctx alts = Ok ws /\
+    (0 <= target -> forall total, last_error (acc_weights ws) = Some total -> 0 < total -> ~ (prod_weight g x == 0)%Q).
+Proof.
+  intros H Hd Hp. destruct (prog_zero_weight_never g key alts ctx st x st' H) as [target [ws [Hw Hz]]].
+  exists target, ws. split; [exact Hw|]. intros Ht total Hl Htot. apply (Hz (prog_final_nonneg g target ctx alts ws Ht Hd Hp Hw) total Hl Htot).
+Qed.
